@@ -20,7 +20,7 @@ BENIGN = set([
     "get_registry_points", "dr.get_registry_points", "get_component_type",
     "BLACKLISTED_SPECS.append", "BLACKLISTED_SPECS.extend",
 ])
-BENIGN_ATTRS = set(["add_exception", "fire_observers", "split", "rsplit", "join", "format", "items", "get", "alarm"])
+BENIGN_ATTRS = set(["add_exception", "fire_observers", "split", "rsplit", "partition", "rpartition", "join", "format", "items", "get", "alarm"])
 
 
 def exc_table(repo):
